@@ -202,6 +202,11 @@ TRACE_MODULE["C20"] = "Trace_C20"
 def c20(ck):
     binary = vlib.build_harness()
     ck.add_tlc(vlib.mc("MC_Timestamp", "MC_Timestamp.cfg", ck.scratch, workers=4))
+    # full scale (Apalache, true integers): the two-digit encoding is an order isomorphism on 0..2^32-1 and the
+    # statement's conversion is exact / monotone on all integers; a deliberately wrong ordering is refuted
+    vlib.apalache("DigitsInd", "Inv", ck.scratch)
+    vlib.apalache("DigitsInd", "Wrong", ck.scratch, expect_violation=True)
+    ck.extra["unbounded_lemma"] = "DigitsInd!Inv (Recombine, OrderIso, EqIso, Monotone, Exact) discharged by Apalache at full 32-bit scale"
     def flip(e):
         e["out"] = {"kind": "Ok", "v": [0, 0]} if e["out"]["kind"] != "Ok" else {"kind": "Overflow"}
     def off_by_one(e):
@@ -719,7 +724,8 @@ def c02(ck):
     ck.extra.update(returns_ok=sum(1 for e in rets if e["result"] == "ok"), returns_err=sum(1 for e in rets if e["result"] == "err"),
                     consultations=sum(1 for e in events if e["event"] == "Consult"),
                     tampered_changed=sum(1 for e in tams if e["value_changed"]),
-                    forgeries_with_repaired_digests=sum(1 for e in tams if "digests_repaired" in e))
+                    forgeries_with_repaired_digests=sum(1 for e in tams if "digests_repaired" in e),
+                    carriers_skipped=[f"{e.get('key')}: {e.get('why')}" for e in events if e["event"] == "CarrierSkipped"])
     ck.samples += [eps[1][:4], tams[1] if len(tams) > 1 else None]
     ck.rule = ("every signature-header shape of Gen_Signature (OPENPGP absent / wrong type / 0..2 entries good, malformed "
                "base64 or shorter than five bytes; RSA, DSA, PGP absent / present / wrong type / short) x verdict pattern "
@@ -822,6 +828,16 @@ def c14(ck):
     if r["ok"] or "Invariant Safe is violated" not in r["out"]:
         raise ToolError("MC_IoSink_single: the specification does not reject the single-write design")
     ck.extra["design_counterexample"] = "single write() per segment violates Safe (as expected)"
+    # the same design for a canonical string of ANY length and any number of sink responses: an inductive invariant
+    # discharged by Apalache (initiation, consecution, IndInv => Safe), and the single-write design refuted
+    from concurrent.futures import ThreadPoolExecutor
+    jobs = [dict(inv="IndInv"), dict(inv="IndInv", init="IndInit", length=1), dict(inv="Safe", init="IndInit"),
+            dict(inv="IndInv", init="IndInit", next_="NextSingle", length=1, expect_violation=True)]
+    with ThreadPoolExecutor(4) as ex:
+        for f in [ex.submit(vlib.apalache, "IoSinkInd", scratch=ck.scratch, **j) for j in jobs]:
+            f.result()
+    ck.extra["unbounded_lemma"] = ("IoSinkInd!IndInv is inductive for the write_all design and implies Safe for every length L "
+                                   "(Apalache); the single-write design breaks consecution")
     tr = ck.scratch / "c14.ndjson"
     vlib.run_harness(binary, ["c14", "--out", tr, "--seed", ck.seed, "--tier", ck.tier], timeout=3000)
     events = read_ndjson(tr)
@@ -927,6 +943,27 @@ def c06(ck):
         lambda e, r: f"Build:{e.get('i')}:{','.join(r['why']) if isinstance(r.get('why'), list) else r.get('why')}" if e else "?",
         shards=8)
     builds = [e for e in events if e["event"] == "Build"]
+    # beyond the property: what the builder adds on its own account (spec/BuilderDerived.tla).  Disagreements are
+    # notes in the evidence - no listed property speaks about these values - but the binding is shown by a canary.
+    real = [e for e in builds if "derived" in e]
+    if real:
+        c = copy.deepcopy(real[0]); c["id"] = max(e["id"] for e in events) + 1000
+        c["derived"]["provides"] = c["derived"]["provides"][:-1]
+        dtr = ck.scratch / "derived.ndjson"
+        write_ndjson(dtr, [c] + real)
+        dv = vlib.validate_trace("Trace_Derived", "Trace_Derived.cfg", ck.scratch, dtr, shards=8)
+        ck.add_validation(dv)
+        if not any(r["id"] == c["id"] for r in dv["rejects"]):
+            raise ToolError("canary for the derived-metadata model was accepted by Trace_Derived")
+        ck.canaries += 1
+        notes = {}
+        for r in dv["rejects"]:
+            if r["id"] != c["id"]:
+                for w in (r["why"] if isinstance(r["why"], list) else [r["why"]]):
+                    notes[w] = notes.get(w, 0) + 1
+        ck.extra["derived_metadata_model"] = {"builds_checked": len(real), "clauses": 11, "disagreements (notes, not violations)": notes}
+        if notes:
+            log(f"  derived-metadata notes (not violations): {notes}")
     # a canary on file entries needs an event with files
     ck.evaluations = len(builds)
     ck.nontrivial = len({json.dumps(e["cfg"], sort_keys=True)[:4000] + str(len(e["files"])) for e in builds})
